@@ -23,7 +23,7 @@ ASSUMPTIONS = ["active control points are determined by the reference span (nvmo
 FLOORS = {'quick': {'hull': 2500, 'bbox-contains': 2500, 'bbox-equals-net': 200, 'clamped-ends': 300, 'length': 40,
                     'find_ctrlpts': 800, 'hull-via-meval': 1500},
           'thorough': {'hull': 25000, 'hull-via-meval': 15000}}
-MANDATORY_TAGS = ['pdim1', 'pdim2', 'pdim3', 'rational', 'dim2', 'dim3', 'unclamped', 'clamped', 'edit-then-read', 'length:after-partial-evaluate']
+MANDATORY_TAGS = ['coarse-precision-sampling', 'container-bbox', 'pdim1', 'pdim2', 'pdim3', 'rational', 'dim2', 'dim3', 'unclamped', 'clamped', 'edit-then-read', 'length:after-partial-evaluate']
 TECHNIQUE = ("runtime monitoring: separating-hyperplane oracle on every evaluated point (targeted queries and all points "
              "intercepted at evaluators.*.evaluate) against the active control points of its knot span; min/max oracle for bbox; "
              "chord/polygon bounds for length_curve")
@@ -114,9 +114,93 @@ def gen(rng, tier, shard, nshards):
             kw = dict(kvcls='jump', maxextra=6)      # interior knot of multiplicity p + 1
         sd = G.rand_shape(rng, pdim, dim=dim, normalize=rng.random() < 0.7, span=rng.choice([None, 'linear', 'binary']), **kw)
         yield {'kind': 'shape', 'sd': sd, 'seed': rng.randrange(1 << 30)}
+        if i % 5 == 1:
+            pd = rng.choice([1, 1, 2])
+            yield {'kind': 'coarse-sampling', 'seed': rng.randrange(1 << 30),
+                   'sd': G.rand_shape(rng, pd, dim=3, clamped_only=True, maxextra=3, maxdeg=3, normalize=True, pcls='uniform')}
+        if i % 5 == 3:
+            pd = rng.choice([1, 2, 3])
+            yield {'kind': 'container-bbox', 'seed': rng.randrange(1 << 30),
+                   'shapes': [G.rand_shape(rng, pd, dim=3, clamped_only=True, maxextra=2, maxdeg=3, pcls='uniform') for _ in range(rng.randint(1, 3))]}
+
+
+def check_coarse_sampling(case, ctx):
+    """shapes created with a small precision= (parameters of the sampled grid are rounded to that many decimals) and sample sizes of 50 - 170:
+    every sampled parameter still lies in the domain, so every sampled point lies in the bounding box; the far end of the shape is the unique
+    extreme point in x, so anything sampled beyond the domain end shows"""
+    sd = dict(case['sd'])
+    rng = random.Random(case['seed'])
+    pdim = sd['pdim']
+    sd['ctrlpts'] = [list(p) for p in sd['ctrlpts']]
+    far = max(p[0] for p in sd['ctrlpts']) + rng.uniform(1.0, 5.0)
+    sd['ctrlpts'][-1][0] = far
+    sd['precision'] = rng.choice([3, 3, 4])
+    o = G.build(sd)
+    sizes = [55, 58, 61, 65, 69] if sd['precision'] == 3 else [156, 161, 166]
+    ctx.tag('coarse-precision-sampling', 'pdim%d' % pdim)
+    ctx.nontriv(True)
+    with hooks.suspended():
+        if pdim == 1:
+            o.sample_size = rng.choice(sizes)
+        else:
+            o.sample_size_u, o.sample_size_v = (rng.choice(sizes), rng.randint(2, 4)) if rng.random() < 0.5 else (rng.randint(2, 4), rng.choice(sizes))
+        bb = o.bbox
+        pts = o.evalpts
+    S = G.defn_of(o)
+    sc = so.scale_of_defn(S)
+    for k, x in enumerate(pts):
+        if not ctx.check(all(bb[0][i] - 1e-9 * sc <= x[i] <= bb[1][i] + 1e-9 * sc for i in range(len(x))), 'bbox/point-outside',
+                         'precision=%d, sample size %r: sampled point #%d %r lies outside the bounding box %r (sampled beyond the domain?)'
+                         % (sd['precision'], o.sample_size, k, list(x), bb), what='bbox-contains'):
+            return
+
+
+def check_container_bbox(case, ctx):
+    """the bounding box a container reports is the box of its elements' CURRENT control points, also after its elements were moved in place"""
+    from geomdl import operations, multi
+    rng = random.Random(case['seed'])
+    sds = case['shapes']
+    pdim = sds[0]['pdim']
+    elems = [G.build(sd) for sd in sds]
+    cls = {1: multi.CurveContainer, 2: multi.SurfaceContainer, 3: multi.VolumeContainer}[pdim]
+    cont = cls(*elems)
+    cont.sample_size = {1: 7, 2: 4, 3: 3}[pdim]
+    ctx.tag('container-bbox')
+    ctx.nontriv(True)
+
+    def judge(desc):
+        bb = cont.bbox
+        cps = [p for e in elems for p in e.ctrlpts]
+        mn = [min(p[i] for p in cps) for i in range(3)]
+        mx = [max(p[i] for p in cps) for i in range(3)]
+        sc = max(1.0, max(abs(c) for c in mn + mx))
+        ok = all(abs(a - b) <= 1e-9 * sc for a, b in zip(bb[0], mn)) and all(abs(a - b) <= 1e-9 * sc for a, b in zip(bb[1], mx))
+        ctx.check(ok, 'container-bbox/not-minmax-of-elements', '%s: container.bbox = %r, the control points of its elements span %r %r'
+                  % (desc, bb, mn, mx), what='bbox-equals-net')
+        for e in elems:
+            for x in e.evalpts[:: max(1, len(e.evalpts) // 8)]:
+                ctx.check(all(bb[0][i] - 1e-9 * sc <= x[i] <= bb[1][i] + 1e-9 * sc for i in range(3)), 'container-bbox/point-outside',
+                          '%s: a sampled point of an element lies outside container.bbox' % desc, what='bbox-contains')
+    with hooks.suspended():
+        judge('as built')
+        op = rng.choice(['translate', 'scale', 'element-ctrlpts', 'rotate'])
+        if op == 'translate':
+            operations.translate(cont, [rng.uniform(5, 30) * rng.choice([-1, 1]) for _ in range(3)], inplace=True)
+        elif op == 'scale':
+            operations.scale(cont, rng.choice([0.25, 3.0]), inplace=True)
+        elif op == 'rotate':
+            operations.rotate(cont, rng.uniform(20, 160), axis=rng.randrange(3), inplace=True)
+        else:
+            e0 = elems[0]
+            e0.ctrlpts = [[c + 40.0 for c in p] for p in e0.ctrlpts]
+        judge('after %s in place' % op)
 
 
 def check(case, ctx):
+    if case.get('kind') == 'coarse-sampling':
+        return check_coarse_sampling(case, ctx)
+    if case.get('kind') == 'container-bbox':
+        return check_container_bbox(case, ctx)
     from geomdl import operations
     sd = case['sd']
     rng = random.Random(case['seed'])
